@@ -54,7 +54,7 @@ def gen_history(r, nops=None, profile=None):
     h = []
     nops = nops or r.randint(5, 60)
     profile = profile or r.choice(["mixed", "mixed", "mixed", "memory", "pool", "device", "streams", "noise"])
-    w = {"ctor": 10, "copy": 8, "asg": 10, "swap": 7, "free": 6, "drop": 8, "norefs": 1.5, "mkdev": 3, "malloc": 9,
+    w = {"ctor": 10, "copy": 8, "asg": 10, "swap": 7, "free": 6, "drop": 8, "norefs": 2.5, "mkdev": 3, "malloc": 9,
          "slice": 5, "mkpool": 4, "reserve": 6, "mkker": 2.5, "mkstr": 4, "getstr": 3, "setstr": 3, "getdev": 3, "junk": 1}
     if profile == "memory":
         w.update(malloc=16, slice=12, swap=12, mkker=0.5, mkstr=1)
